@@ -3,6 +3,6 @@
 prop=$1; src=$2; tier=${3:-quick}
 wt=/tmp/rs_$$; git -C /repo worktree add -q $wt HEAD || exit 9
 git -C $wt apply $src/patch.diff || { echo "PATCH FAIL"; git -C /repo worktree remove --force $wt; exit 8; }
-cd /verif; VERIF_REPO=$wt timeout 2400 ./bin/verif check $prop --tier $tier ${4:+--only $4} 2>&1 | grep -E "VIOLATION|INCONCLUSIVE|^OK|KNOWN" | cut -c1-220 | head -8
+cd /verif; VERIF_REPO=$wt timeout 2400 ${VERIF_BIN:-./bin/verif} check $prop --tier $tier ${4:+--only $4} 2>&1 | grep -E "VIOLATION|INCONCLUSIVE|^OK|KNOWN" | cut -c1-220 | head -8
 echo "rc=${PIPESTATUS[0]}"
 git -C /repo worktree remove --force $wt
